@@ -34,6 +34,8 @@ func init() {
 			{ID: "R06l", Floor: 1, Doc: "the rescan ends only where the payload ends: the code after the rescan loop is reached only through `err == io.EOF` of the length read or the zero-length-as-EOF option; any other way out leaves acknowledged sections unindexed and lets the next put overwrite them", Run: ruleR06l},
 			{ID: "R06m", Floor: 1, Doc: "in CARv2 mode Resume blanks the whole header before it rescans, on every path: the rescan is not reachable without the all-zero header write (stale DataSize/IndexOffset bytes left in the slot complete a later torn header)", Run: ruleR06m},
 			{ID: "R06n", Floor: 4, Doc: "once a finalizer has run the store takes no more puts, also when the finalize failed: a section appended after a partly written header or index lies where Resume truncates or rescans (= R04c)", Run: ruleR04c},
+			{ID: "R06o", Floor: 1, Doc: "Resume cuts a finalized file back to the end of its payload before it blanks the header: the Truncate call is not reachable from the all-zero header write (the other order leaves, after a crash between the two, a blank header followed by payload and old index, which the next rescan reads as sections)", Run: ruleR06o},
+			{ID: "R06p", Floor: 1, Doc: "`car filter --append` treats a destination it cannot open as an error: from the failed OpenReader no success return and no truncation is reachable, and FilterCar does not re-enter itself (an output left by an interrupted session fails to open; starting over destroys it)", Run: ruleR06p},
 			{ID: "R06h", Floor: 2, Doc: "who may write the v2 header slot of a read-write session's file: store.Finalize writes the final header (after the index, R06b); everywhere else in the writing packages only the all-zero header may be written (a non-final, non-zero header on disk makes a later torn Finalize header look complete to Resume)", Run: ruleR06h},
 			{ID: "R06g", Floor: 1, Doc: "the file is truncated by the header on file only when that header is complete: IndexOffset (the last field Finalize writes) >= DataOffset + DataSize", Run: ruleR06g},
 			{ID: "R06f", Floor: 1, Doc: "every section already in the file is re-indexed on resume (= R12c): acknowledged blocks stay retrievable", Run: ruleR12c},
@@ -62,6 +64,7 @@ func init() {
 			{ID: "R12l", Floor: 2, Doc: "the payload header a new session writes lists the caller's roots as given (no filtering, no rebuilding): Resume compares the header on file with the roots the caller passes again, so a writer that edits the list makes its own file unresumable", Run: ruleR12l},
 			{ID: "R12m", Floor: 2, Doc: "only Resume resizes a session's file: a Discard or Close that trims the file changes what the next Resume finds (= R06k)", Run: ruleR06k},
 			{ID: "R12n", Floor: 6, Doc: "the index a resumed session finalizes is byte-identical to the one an uninterrupted session writes: buckets are written in ascending width order, not map order (= R11b)", Run: ruleR11b},
+			{ID: "R12o", Floor: 1, Doc: "Resume judges sections by their framing only: no hashing of block contents is reachable from it (directly or through functions the pinned tree does not have) — Put never verified what it stored, so a verifying resume refuses the writer's own files", Run: ruleR12o},
 		},
 	})
 	register(PropertyDef{
@@ -86,6 +89,7 @@ func init() {
 			{ID: "R16i", Floor: 2, Doc: "a finalize that did not write index and header does not report success (= R05l)", Run: ruleR05l},
 			{ID: "R16k", Floor: 4, Doc: "the deferred writer builds its CAR writer over the caller's stream or a freshly opened, truncated file (= R05g)", Run: ruleR20b},
 			{ID: "R16m", Floor: 1, Doc: "the deferred writer reports a put as stored only when the underlying writer did (= R20f)", Run: ruleR20f},
+			{ID: "R16n", Floor: 1, Doc: "no reader/writer adapter type beside the audited ones in internal/io: a concrete type of that package that the pinned tree does not have declares no Write/WriteAt/Read/ReadAt/ReadByte/Seek", Run: ruleR16n},
 		},
 	})
 }
@@ -732,25 +736,36 @@ func ruleR09e(c *Ctx, r *Report) {
 	}
 	key := "header-range-checks@" + fnKey(fn)
 	// stores to the receiver's DataOffset, DataSize, IndexOffset
-	var stores []*ssa.Store
+	// (the receiver's own fields: a decode into a local copy that is validated and then assigned
+	// to *h as a whole is the same discipline — then the whole-struct store is what must wait)
+	var stores, whole []*ssa.Store
+	recv := ssa.Value(nil)
+	if len(fn.Params) > 0 {
+		recv = fn.Params[0]
+	}
 	eachInstr(fn, func(in ssa.Instruction) {
 		if st, ok := in.(*ssa.Store); ok {
-			if fa, ok := st.Addr.(*ssa.FieldAddr); ok {
+			if fa, ok := st.Addr.(*ssa.FieldAddr); ok && addrRoot(fa) == recv {
 				for _, f := range []string{"DataOffset", "DataSize", "IndexOffset"} {
 					if fieldAddrIs(fa, modV2, "Header", f) {
 						stores = append(stores, st)
 					}
 				}
 			}
+			if st.Addr == recv {
+				whole = append(whole, st)
+			}
 		}
 	})
-	if len(stores) != 3 {
+	if len(stores) == 0 && len(whole) > 0 {
+		stores = whole
+	} else if len(stores) != 3 {
 		r.Undec(key, c.Pos(fn.Pos()), fmt.Sprintf("expected 3 field stores, found %d", len(stores)))
 		return
 	}
 	isU64At := func(lo int64) func(ssa.Value) bool {
 		return func(v ssa.Value) bool {
-			cl, _ := callOf(canon(v))
+			cl, _ := callOf(canonF(v))
 			if cl == nil {
 				return false
 			}
@@ -1695,7 +1710,7 @@ func writesSomething(c *Ctx, ci ssa.CallInstruction, pkg string, depth int, seen
 	if depth >= 3 {
 		return ""
 	}
-	callee := ci.Common().StaticCallee()
+	callee := staticTarget(ci.Common())
 	if callee == nil || callee.Pkg == nil || callee.Pkg.Pkg.Path() != pkg || seen[callee] || len(callee.Blocks) == 0 {
 		return ""
 	}
